@@ -594,6 +594,7 @@ func runC08(c *Ctx) {
 	}
 	clauseUpdateKeepsRemoteMark(c, "C08.g")
 	clauseCommitAfterRename(c, "C08.h")
+	clauseCleanupSkipsOnlyLive(c, "C08.i")
 	c.assume("containerd's storage package returns ParentIDs nearest parent first and IDMap/WalkInfo reflect the transaction's view")
 }
 
